@@ -92,6 +92,18 @@ void check_type(const std::string& name, MK&& mk, GET&& get, int part, int npart
       const bool eq = a == b, ne = a != b, lt = a < b, gt = a > b, le = a <= b, ge = a >= b;
       bool ok = eq == (c == 0) && ne == (c != 0) && lt == (c < 0) && gt == (c > 0) && le == (c <= 0) && ge == (c >= 0);
       const char* what = "operators-disagree-with-lexicographic-order";
+      // the same six answers whatever the value category of the operands (every seventh pair: temporaries on either side), and
+      // when both operands are one object
+      if (ok && (i + j) % 7 == 0) {
+        if constexpr (std::is_copy_constructible_v<X>) {
+          ok = (X(a) == b) == eq && (a != X(b)) == ne && (X(a) < X(b)) == lt && (a > X(b)) == gt && (X(a) <= b) == le && (X(a) >= X(b)) == ge && H(X(a)) == ha;
+          if (!ok) what = "temporaries-compare-differently-from-named-objects";
+        }
+      }
+      if (ok && i == j) {
+        ok = (a == a) && !(a != a) && !(a < a) && !(a > a) && (a <= a) && (a >= a);
+        if (!ok) what = "an-object-compared-with-itself";
+      }
       if (ok && c == 0 && ha != H(b)) {
         ok = false;
         what = "equal-objects-hash-differently";
